@@ -27,6 +27,7 @@ import (
 	"sort"
 	"strings"
 	"sync"
+	"sync/atomic"
 	"time"
 
 	"github.com/mycoria/mycoria"
@@ -112,18 +113,33 @@ type cfgDesc struct {
 	Connect  bool     `json:"connect"`
 }
 
+// freePort hands out loopback ports from a process-wide increasing counter (so that no two scenarios of this
+// process ever get the same one), skipping ports that cannot be bound right now.
+var portCounter atomic.Int64
+
 func freePort() int {
-	ln, err := net.Listen("tcp", "127.0.0.1:0")
-	if err != nil {
-		panic(err)
+	for {
+		p := 20000 + int(portCounter.Add(1))
+		if p > 60000 {
+			panic("out of ports")
+		}
+		ln, err := net.Listen("tcp", fmt.Sprintf("127.0.0.1:%d", p))
+		if err != nil {
+			continue
+		}
+		_ = ln.Close()
+		ln2, err := net.Listen("tcp", fmt.Sprintf("[::]:%d", p))
+		if err != nil {
+			continue
+		}
+		_ = ln2.Close()
+		return p
 	}
-	defer ln.Close()
-	return ln.Addr().(*net.TCPAddr).Port
 }
 
 var svcURLs = []string{"tcp://:8080", "udp://:53", "tcp://:22", "http://:80", "https://:443"}
 
-func genConfig(rng *rand.Rand, idx int, api bool, connectTo int, stateDir string, universe string, secret bool) (config.Store, cfgDesc, []int) {
+func genConfig(rng *rand.Rand, idx int, api bool, connectTo int, stateDir string, universe string, secret bool, fixedPorts []int) (config.Store, cfgDesc, []int) {
 	ids := mesh.Identities(8)
 	st := config.Store{}
 	d := cfgDesc{API: api, Connect: connectTo != 0}
@@ -164,9 +180,17 @@ func genConfig(rng *rand.Rand, idx int, api bool, connectTo int, stateDir string
 		st.System.APIListen = fmt.Sprintf("127.0.0.1:%d", freePort())
 	}
 	d.Listen = 1 + rng.Intn(2)
+	if fixedPorts != nil {
+		d.Listen = len(fixedPorts)
+	}
 	var ports []int
 	for k := 0; k < d.Listen; k++ {
-		p := freePort()
+		p := 0
+		if fixedPorts != nil {
+			p = fixedPorts[k]
+		} else {
+			p = freePort()
+		}
 		ports = append(ports, p)
 		st.Router.Listen = append(st.Router.Listen, fmt.Sprintf("tcp:%d", p))
 	}
@@ -239,17 +263,21 @@ type live struct {
 }
 
 type scenario struct {
-	c        *vf.Ctx
-	rng      *rand.Rand
-	dir      string
-	insts    map[string]*live
-	linked   bool
-	universe string
-	secret   bool
-	events   []any
-	descs    []any
-	macro    []string
-	bad      []badThing
+	c      *vf.Ctx
+	rng    *rand.Rand
+	dir    string
+	insts  map[string]*live
+	linked bool
+	// fixed: both instances keep their listen ports over all their restarts and A is configured to connect to B
+	// for good (a router that is restarted from the same configuration while its peer keeps running)
+	fixed      bool
+	fixedPorts map[string][]int
+	universe   string
+	secret     bool
+	events     []any
+	descs      []any
+	macro      []string
+	bad        []badThing
 }
 
 type badThing struct{ key, what string }
@@ -340,7 +368,15 @@ func (s *scenario) construct(name string, api bool, walk []act, pos int) {
 	if name == "B" {
 		idx = 1
 	}
-	st, desc, ports := genConfig(s.rng, idx, api, connectTo, s.dir, s.universe, s.secret)
+	var fp []int
+	if s.fixed {
+		fp = s.fixedPorts[name]
+		connectTo = 0
+		if name == "A" {
+			connectTo = s.fixedPorts["B"][0]
+		}
+	}
+	st, desc, ports := genConfig(s.rng, idx, api, connectTo, s.dir, s.universe, s.secret, fp)
 	cfg, err := st.Parse()
 	if err != nil {
 		s.c.Broken("generated configuration does not parse: %v", err)
@@ -459,13 +495,19 @@ func (s *scenario) stop(name string) {
 }
 
 func (s *scenario) peer() {
-	deadline := time.Now().Add(25 * time.Second)
+	// the connect manager retries every second for 10 s and every 5 s for a minute after it lost its last link
+	// (or started), then once a minute
+	limit := 25 * time.Second
+	if s.fixed {
+		limit = 75 * time.Second
+	}
+	deadline := time.Now().Add(limit)
 	for !s.bothLinked() && time.Now().Before(deadline) {
 		time.Sleep(20 * time.Millisecond)
 	}
 	if !s.bothLinked() {
 		a, b := s.insts["A"], s.insts["B"]
-		s.bad = append(s.bad, badThing{"no-peering", fmt.Sprintf("two running relay-only routers did not peer over loopback within 25 s (A %+v, B %+v)", a.desc, b.desc)})
+		s.bad = append(s.bad, badThing{"no-peering", fmt.Sprintf("two running relay-only routers did not peer over loopback within %v (fixed ports: %v; A %+v, B %+v)", limit, s.fixed, a.desc, b.desc)})
 		return
 	}
 	s.notePeer()
@@ -557,6 +599,16 @@ func run(c *vf.Ctx) {
 		return w
 	}
 	walks = append(walks, full("A", "B"), full("B", "A"))
+	// one router is restarted from the same configuration (same listen port) while the other keeps running and
+	// has to find it again: the listener restarts, then the connector
+	restart := func(who string) []act {
+		other := map[string]string{"A": "B", "B": "A"}[who]
+		return []act{{Name: "construct", Inst: "A", API: false}, {Name: "construct", Inst: "B", API: true}, {Name: "startmodule", Inst: "A"}, {Name: "startmodule", Inst: "B"},
+			{Name: "peer", A: "A", B: "B"}, {Name: "stoprequest", Inst: who}, {Name: "construct", Inst: who, API: false}, {Name: "startmodule", Inst: who}, {Name: "peer", A: "A", B: "B"},
+			{Name: "stoprequest", Inst: other}, {Name: "stoprequest", Inst: who}}
+	}
+	nRandom := len(walks)
+	walks = append(walks, restart("B"), restart("A"))
 	c.Logf("M done; %d walks", len(walks))
 
 	runtime.GC()
@@ -574,6 +626,10 @@ func run(c *vf.Ctx) {
 		if i%2 == 1 {
 			scen[i].universe = fmt.Sprintf("verse%d", i%3)
 			scen[i].secret = i%4 == 1
+		}
+		if i%3 != 0 || i >= nRandom {
+			scen[i].fixed = true
+			scen[i].fixedPorts = map[string][]int{"A": {freePort()}, "B": {freePort(), freePort()}}
 		}
 		wg.Add(1)
 		go func(s *scenario, w []act) {
